@@ -187,26 +187,28 @@ theorem header_only_consumes_header (P : Profile) (o : Opts) (g : Globals) (data
 /-! ### the File returned with the error -/
 
 /-- **The partial File holds exactly the complete messages.** Take a frame as a FIT writer lays it
-    out (14-byte header declaring the full record area, file_id definition and data record, further
+    out (a header of any of the three kinds readers accept, declaring the full record area, file_id definition and data record, further
     records) and cut it inside a record — after the complete records `done` and `j` bytes of the next
     record — ending the stream there with EOF or with a reader error, under any read schedule.
     If the item machine accepts the complete records, `Decode` returns an error, does not panic, and
     the File it returns has the file_id, file_creator, timestamp_correlation, container and slots
     (every message of every complete record, nothing of the cut one) that the item machine holds
     after `done`; the accumulators too. -/
-theorem partial_file_on_cut (P : Profile) (hwf : ProfileWF P = true) (o : Opts) (g : Globals) (proto profile : Nat)
+theorem partial_file_on_cut (P : Profile) (hwf : ProfileWF P = true) (o : Opts) (k : HdrKind) (g : Globals) (proto profile : Nat)
     (d0 : DefMsg) (b0 : Bool) (fs dev : List Bytes) (done : List Item) (it : Item) (more : List Item) (j : Nat)
     (r : Reader) (st1 : DecSt)
     (hp : proto < 256) (hp2 : proto / 16 ≤ protoMajorMax)
     (hwf0 : DefnWF d0 b0) (hg : d0.global = mnFileId) (hkn : P.known mnFileId = true)
     (hlen : (serialize (.defn d0 b0 :: .data d0.localT fs dev :: (done ++ it :: more))).length < 4294967296)
     (hfit : ItemsFitD P (List.replicate 16 none) (.defn d0 b0 :: .data d0.localT fs dev :: (done ++ it :: more)))
-    (hrun : runItems P (afterHeader g proto profile
+    (hrun : runItems P (afterHeader k g proto profile
       (serialize (.defn d0 b0 :: .data d0.localT fs dev :: (done ++ it :: more))).length).hdr g
-      (.defn d0 b0 :: .data d0.localT fs dev :: done) = .ok st1)
+      (.defn d0 b0 :: .data d0.localT fs dev :: done)
+      (afterHeader k g proto profile
+      (serialize (.defn d0 b0 :: .data d0.localT fs dev :: (done ++ it :: more))).length).crc = .ok st1)
     (hj : j < (serializeItem it).length)
-    (hdata : r.data = (frameBytes proto profile (serialize (.defn d0 b0 :: .data d0.localT fs dev :: (done ++ it :: more)))).take
-      (14 + ((serialize (.defn d0 b0 :: .data d0.localT fs dev :: done)).length + j))) :
+    (hdata : r.data = (frameBytesK k proto profile (serialize (.defn d0 b0 :: .data d0.localT fs dev :: (done ++ it :: more)))).take
+      (k.size + ((serialize (.defn d0 b0 :: .data d0.localT fs dev :: done)).length + j))) :
     (decode P o .full g r).1.err.isSome = true ∧ (decode P o .full g r).1.panic = false ∧
     (decode P o .full g r).1.st.glob = st1.glob ∧
     ∀ F1, st1.file = some F1 → ∃ F', (decode P o .full g r).1.st.file = some F' ∧ F'.sameContent F1 := by
@@ -219,7 +221,7 @@ theorem partial_file_on_cut (P : Profile) (hwf : ProfileWF P = true) (o : Opts) 
   have hk : (serialize (.defn d0 b0 :: .data d0.localT fs dev :: done)).length + j ≤
       (serialize (.defn d0 b0 :: .data d0.localT fs dev :: (done ++ it :: more))).length := by
     rw [hser]; simp only [List.length_append]; omega
-  rw [frameBytes_take _ _ _ _ hk]
+  rw [frameBytes_take _ _ _ _ _ hk]
   have htake : (serialize (.defn d0 b0 :: .data d0.localT fs dev :: (done ++ it :: more))).take
       ((serialize (.defn d0 b0 :: .data d0.localT fs dev :: done)).length + j) =
       serialize (.defn d0 b0 :: .data d0.localT fs dev :: done) ++ (serializeItem it).take j := by
@@ -227,9 +229,9 @@ theorem partial_file_on_cut (P : Profile) (hwf : ProfileWF P = true) (o : Opts) 
       List.take_of_length_le (by omega : (serialize (.defn d0 b0 :: .data d0.localT fs dev :: done)).length ≤ _),
       List.take_append_of_le_length (by omega)]
   rw [htake]
-  obtain ⟨e, he, hfe⟩ := decode_cut_partial P o g proto profile d0 b0 fs dev done it more j r.stop st1 hp hp2 hwf0 hg hkn
+  obtain ⟨e, he, hfe⟩ := decode_cut_partial P o k g proto profile d0 b0 fs dev done it more j r.stop st1 hp hp2 hwf0 hg hkn
     _ rfl hlen hfit hrun hj
-  have hnp := C01.decodeSpec_never_panics P hwf o .full g (14 :: (hdrTail proto profile
+  have hnp := C01.decodeSpec_never_panics P hwf o .full g (u8 k.size :: (hdrTail k proto profile
       (serialize (.defn d0 b0 :: .data d0.localT fs dev :: (done ++ it :: more))).length ++
       (serialize (.defn d0 b0 :: .data d0.localT fs dev :: done) ++ (serializeItem it).take j))) r.stop
   rw [he] at hnp ⊢
@@ -301,30 +303,33 @@ theorem exFit : ItemsFitD Gen.profile (List.replicate 16 none) (.defn exDef fals
     exact ⟨⟨by decide, hrec⟩, ⟨by decide, hrec⟩, ⟨by decide, hrec⟩, trivial⟩
 
 set_option maxRecDepth 100000 in
-/-- the premises of `partial_file_on_cut` are satisfiable on the regenerated profile: a frame of a
+/-- the premises of `partial_file_on_cut` are satisfiable on the regenerated profile: a frame with a 12-byte header, a
     file_id definition and three file_id data records, cut one byte into the third, read through
     any reader with any options; `Decode` reports an error and returns a File -/
 example (o : Opts) (r : Reader)
-    (hdata : r.data = (frameBytes 0x20 2115 (serialize (.defn exDef false :: exRec :: ([exRec] ++ exRec :: [])))).take
-      (14 + ((serialize (.defn exDef false :: exRec :: [exRec])).length + 1))) :
+    (hdata : r.data = (frameBytesK .noCrc 0x20 2115 (serialize (.defn exDef false :: exRec :: ([exRec] ++ exRec :: [])))).take
+      (12 + ((serialize (.defn exDef false :: exRec :: [exRec])).length + 1))) :
     (decode Gen.profile o .full {} r).1.err.isSome = true ∧ (decode Gen.profile o .full {} r).1.panic = false ∧
     (decode Gen.profile o .full {} r).1.st.file.isSome = true := by
-  have hok : isOk (runItems Gen.profile (afterHeader {} 0x20 2115
+  have hok : isOk (runItems Gen.profile (afterHeader .noCrc {} 0x20 2115
       (serialize (.defn exDef false :: exRec :: ([exRec] ++ exRec :: []))).length).hdr {}
-      (.defn exDef false :: exRec :: [exRec])) = true ∧
-      (match runItems Gen.profile (afterHeader {} 0x20 2115
+      (.defn exDef false :: exRec :: [exRec])
+      (afterHeader .noCrc {} 0x20 2115 (serialize (.defn exDef false :: exRec :: ([exRec] ++ exRec :: []))).length).crc) = true ∧
+      (match runItems Gen.profile (afterHeader .noCrc {} 0x20 2115
         (serialize (.defn exDef false :: exRec :: ([exRec] ++ exRec :: []))).length).hdr {}
-        (.defn exDef false :: exRec :: [exRec]) with
+        (.defn exDef false :: exRec :: [exRec])
+        (afterHeader .noCrc {} 0x20 2115 (serialize (.defn exDef false :: exRec :: ([exRec] ++ exRec :: []))).length).crc with
        | .ok st => st.file.isSome
        | .stop _ => false) = true := by decide +kernel
-  cases hr : runItems Gen.profile (afterHeader {} 0x20 2115
+  cases hr : runItems Gen.profile (afterHeader .noCrc {} 0x20 2115
       (serialize (.defn exDef false :: exRec :: ([exRec] ++ exRec :: []))).length).hdr {}
-      (.defn exDef false :: exRec :: [exRec]) with
+      (.defn exDef false :: exRec :: [exRec])
+      (afterHeader .noCrc {} 0x20 2115 (serialize (.defn exDef false :: exRec :: ([exRec] ++ exRec :: []))).length).crc with
   | stop _ => rw [hr] at hok; cases hok.1
   | ok st1 =>
     rw [hr] at hok
     have hsome : st1.file.isSome = true := hok.2
-    obtain ⟨h1, h2, _, h4⟩ := partial_file_on_cut Gen.profile C01.gen_wf o {} 0x20 2115 exDef false [[4]] [] [exRec] exRec [] 1 r st1
+    obtain ⟨h1, h2, _, h4⟩ := partial_file_on_cut Gen.profile C01.gen_wf o .noCrc {} 0x20 2115 exDef false [[4]] [] [exRec] exRec [] 1 r st1
       (by decide) (by decide) exFit.1 rfl (by decide +kernel) (by decide +kernel) exFit hr (by decide) hdata
     refine ⟨h1, h2, ?_⟩
     cases hf : st1.file with
